@@ -1090,9 +1090,22 @@ def cumsum(x, axis=None):
     return NDArr(_obj(out))
 
 
-def diff(x, n=1):
-    lst = list(_obj(x).flat)
-    return NDArr(_obj([b - a for a, b in zip(lst, lst[1:])]))
+def diff(x, n=1, axis=-1):
+    """n-th order discrete difference along `axis` (object arithmetic, so cells may be symbolic)"""
+    a = _obj(x)
+    if a.ndim == 0:
+        raise ValueError("diff requires input that is at least one dimensional")
+    n = _b.int(n)
+    if n < 0:
+        raise ValueError("order must be non-negative but got %r" % (n,))
+    ax = _b.int(axis) % a.ndim
+    for _ in _b.range(n):
+        hi = [_b.slice(None)] * a.ndim
+        lo = [_b.slice(None)] * a.ndim
+        hi[ax] = _b.slice(1, None)
+        lo[ax] = _b.slice(None, -1)
+        a = a[tuple(hi)] - a[tuple(lo)]
+    return NDArr(a)
 
 
 def dot(a, b):
